@@ -95,15 +95,28 @@ class Gateway(Harness):
                 g_client.parse_request, g_client.serialize_response, l_func.next_uuid]
 
     def body(self, ch, params):
+        from vf import fakezmq
+
+        fakezmq.NET.reset()
         poller = FakePoller()
         router = JobRouter(poller)
         J = params["jobs"]
-        jids = [f"job{j}" for j in range(J)]
-        socks = {}
+        # jobs come into being the way they do in production: through spawn_job (subprocess spawning stubbed)
+        ids = iter([f"job{j}" for j in range(J)] + [f"extra{k}" for k in range(8)])
+        g_router.uuid = types.SimpleNamespace(uuid4=lambda: next(ids))
+        spec0 = types.SimpleNamespace(use_slurm=False, hosts=1, workers_per_host=1, envvars={}, benchmark_name="x", job_instance=None)
+        jids = [router.spawn_job(spec0) for _ in range(J)]
+        socks = {j: router.jobs[j].socket for j in jids}
+
+        class _Inbox:
+            def __init__(self, sock):
+                self.sock = sock
+
+            def append(self, rep):
+                fakezmq.NET.q(self.sock.address).append([rep])
+
         for j in jids:
-            socks[j] = Sock()
-            router.jobs[j] = Job(socks[j], JobProgressStarted, -1, {})
-            poller.register(socks[j])
+            socks[j].inbox = _Inbox(socks[j])
         seen: dict[str, list] = {j: [] for j in jids}  # (timestamp, progress) of progress reports received
         uploaded: dict = {}
         shut = set()
